@@ -130,7 +130,7 @@ func TestC09(t *testing.T) {
 	runWitnesses(t, "C09")
 
 	// Exhaustive: all lists of <=3 cues with 0<=s<=e<=4 (unit 1 ms) x d in -6..3, sharded by index.
-	t.Run("grid", func(t *testing.T) {
+	sub(t, "grid", func(t *testing.T) {
 		var pairs [][2]int64
 		for s := int64(0); s <= 4; s++ {
 			for e := s; e <= 4; e++ {
